@@ -4,8 +4,14 @@ Layer G: the write / reload / retry loop of `generatePackage` over an abstract l
 A derive call's argument is either typed by the user's own expressions (`known`) or its type is the
 result type of another derive call (`resultOf callee`): then the loader takes it from the signature
 of `callee` in the derived.gen.go *currently on disk* — which may be stale, truncated or absent.
-`GenFn` abstracts what a plugin generates for (function name, argument types): the result type of
-the emitted function, or `none` when `Add` rejects the arguments.
+`GenFn` abstracts what a plugin's `Add` + `Generate` do for given argument types: the result type of
+the emitted function, `addFails` when `Add` rejects the arguments, `generateFails` when `Add` accepts
+them and `Generate` (of the function or of a helper it asks for) then fails.
+
+The model is RUN next to the real goderive (driver op `regen`, `Driver/OpsRegen.lean`; scenarios of
+`harness/cmd/genregen`; comparison in `vlib/regen.py`): same calls, same old file, `GenFn` tabulated
+from one-call runs of the real plugins.  Types are numbered such that two distinct numbers are not
+assignable to each other (the scenario generator uses no two types with one underlying type).
 -/
 namespace Goderive.Reload
 
@@ -14,15 +20,36 @@ inductive Arg where
   | resultOf (callee : Nat)
   deriving DecidableEq, Repr
 
-/-- function names are numbered (the harness maps them to identifiers) -/
+/-- function names, plugins and call texts are numbered (the harness maps them to identifiers):
+`plugin` is the plugin whose prefix the name starts with, `text` the call as it is written
+(`types.ExprString`: what the loop compares from pass to pass) -/
 structure Call where
   name : Nat
+  plugin : Nat
+  text : Nat
   args : List Arg
   deriving DecidableEq, Repr
 
 /-- the derived file as the loader sees it: declared function ↦ result type, in file order -/
 abbrev Derived := List (Nat × Nat)
-abbrev GenFn := Nat → List Nat → Option Nat
+/-- what a plugin does for given argument types -/
+inductive Gen where
+  | emits (r : Nat)     -- `Add` accepts, `Generate` writes a function with this result type
+  | addFails            -- `Add` refuses the argument types ("Add Error", in `newPackage`)
+  | generateFails       -- `Add` accepts (the name table gets its entry), `Generate` fails ("Generator Error")
+  deriving DecidableEq, Repr
+
+/-- plugin, argument types ↦ what the plugin does -/
+abbrev GenFn := Nat → List Nat → Gen
+
+/-- one entry of a plugin's `typesMap`: a function that this pass is to emit (`result = none`: its
+generation will fail) -/
+structure Fn where
+  name : Nat
+  plugin : Nat
+  ts : List Nat
+  result : Option Nat
+  deriving DecidableEq, Repr
 
 def argType (d : Derived) : Arg → Option Nat
   | .known t => some t
@@ -30,20 +57,45 @@ def argType (d : Derived) : Arg → Option Nat
 
 def argTypes (d : Derived) (c : Call) : Option (List Nat) := c.args.mapM (argType d)
 
-/-- registering one call: deferred (argument types unknown), rejected, or a function to emit
-(a name already registered is not emitted twice) -/
-def register (gen : GenFn) (d : Derived) (acc : Derived × List Nat) (c : Call) :
-    Except String (Derived × List Nat) :=
-  match argTypes d c with
-  | none => .ok (acc.1, acc.2 ++ [c.name])
-  | some ts =>
-    match gen c.name ts with
-    | none => .error "Add Error"
-    | some r => if acc.1.lookup c.name |>.isSome then .ok acc else .ok (acc.1 ++ [(c.name, r)], acc.2)
+/-- `typesMap.SetFuncName` (per plugin; without -autoname / -dedup): a function of this plugin for
+these types exists — under this name: nothing new; under another name: "ambigious function names";
+the name is taken for other types: "conflicting function names"; else a new entry.
+(The types a plugin registers are a function of the accepted argument types and determine them.) -/
+def setFuncName (reg : List Fn) (c : Call) (ts : List Nat) (r : Option Nat) : Except String (List Fn) :=
+  match reg.find? (fun f => f.plugin = c.plugin ∧ f.ts = ts) with
+  | some f => if f.name = c.name then .ok reg else .error "Add Error"
+  | none =>
+    if reg.any (fun f => f.plugin = c.plugin ∧ f.name = c.name) then .error "Add Error"
+    else .ok (reg ++ [⟨c.name, c.plugin, ts, r⟩])
 
-/-- one pass (newPackage + Generate) with the loader seeing `d`: calls are registered in source order -/
-def pass (gen : GenFn) (d : Derived) (calls : List Call) : Except String (Derived × List Nat) :=
+/-- registering one call: deferred (an argument type is unknown: `HasUndefined`), rejected by the
+plugin or by its name table (`pkg.Add`), or a function to emit -/
+def register (gen : GenFn) (d : Derived) (acc : List Fn × List Nat) (c : Call) :
+    Except String (List Fn × List Nat) :=
+  match argTypes d c with
+  | none => .ok (acc.1, acc.2 ++ [c.text])
+  | some ts =>
+    match gen c.plugin ts with
+    | .addFails => .error "Add Error"
+    | g =>
+      match setFuncName acc.1 c ts (match g with | .emits r => some r | _ => none) with
+      | .error e => .error e
+      | .ok reg => .ok (reg, acc.2)
+
+/-- `newPackage` with the loader seeing `d`: the calls are registered in source order -/
+def registerAll (gen : GenFn) (d : Derived) (calls : List Call) : Except String (List Fn × List Nat) :=
   calls.foldlM (register gen d) ([], [])
+
+/-- one pass (newPackage + Generate): an Add Error of any call comes before the Generator Error of any
+registered function -/
+def pass (gen : GenFn) (d : Derived) (calls : List Call) : Except String (List Fn × List Nat) :=
+  match registerAll gen d calls with
+  | .error e => .error e
+  | .ok (reg, us) => if reg.any (fun f => f.result.isNone) then .error "Generator Error" else .ok (reg, us)
+
+/-- what `Print` writes for the registered functions (helper functions, which only generated code
+calls, are not part of the model: their names are never those of user calls that wait for a type) -/
+def fileOf (reg : List Fn) : Derived := reg.filterMap fun f => f.result.map fun r => (f.name, r)
 
 def insertSorted (s : Nat) : List Nat → List Nat
   | [] => [s]
@@ -51,29 +103,40 @@ def insertSorted (s : Nat) : List Nat → List Nat
 
 def sortStrings (l : List Nat) : List Nat := l.foldr insertSorted []
 
-/-- `generatePackage`: `file` is what is left on disk (`none` = derived.gen.go removed).
-`passes` counts the passes made (`for passes := 0; generated || passes < 2; passes++`): the first pass
-is followed by a reload also when it generated nothing (F74: it worked on the program as it was loaded
-before this run generated for the imported packages). -/
+/-- `generatePackage`: the result is what is left on disk — the functions written by the last pass with
+the argument types they were generated for (`none` = derived.gen.go removed); the next pass reads it as
+`fileOf`. `passes` counts the passes made (`for passes := 0; generated || passes < 2; passes++`): the
+first pass is followed by a reload also when it generated nothing (F74: it worked on the program as it
+was loaded before this run generated for the imported packages). -/
 def loop (gen : GenFn) (calls : List Call) :
-    Nat → Nat → Derived → Option (List Nat) → Except String (Option Derived)
+    Nat → Nat → Derived → Option (List Nat) → Except String (Option (List Fn))
   | 0, _, _, _ => .error "no fixpoint within the fuel"
   | fuel + 1, passes, d, prev => do
-    let (out, us) ← pass gen d calls
+    let (reg, us) ← pass gen d calls
     let us := sortStrings us
-    let file : Option Derived := if out = [] then none else some out   -- Print, or Delete when nothing was printed
+    let file : Option (List Fn) := if reg = [] then none else some reg   -- Print, or Delete when nothing was printed
     if us = [] then .ok file
-    else if prev = some us then (if out = [] then .error "cannot generate" else .ok file)
-    else if out = [] ∧ 1 ≤ passes then .error "cannot generate"
-    else loop gen calls fuel (passes + 1) out (some us)
+    else if prev = some us then (if reg = [] then .error "cannot generate" else .ok file)
+    else if reg = [] ∧ 1 ≤ passes then .error "cannot generate"
+    else loop gen calls fuel (passes + 1) (fileOf reg) (some us)
 
 /-- one run of goderive on a package whose derived.gen.go the loader sees as `old` -/
-def regen (gen : GenFn) (calls : List Call) (old : Derived) : Except String (Option Derived) :=
+def regen (gen : GenFn) (calls : List Call) (old : Derived) : Except String (Option (List Fn)) :=
   loop gen calls (calls.length + 3) 0 old none
 
 /-- `NoStaleFlow`: on every callee whose result type flows into another derive call, the old file
 declares exactly what `f` declares (same signature, or neither declares it) -/
 def AgreeOn (calls : List Call) (d f : Derived) : Prop :=
   ∀ c ∈ calls, ∀ n, Arg.resultOf n ∈ c.args → d.lookup n = f.lookup n
+
+/-- the callees whose signature a pass reads from the file on disk -/
+def flowing (calls : List Call) : List Nat :=
+  calls.flatMap fun c => c.args.filterMap fun a => match a with
+    | .resultOf n => some n
+    | .known _ => none
+
+/-- `AgreeOn`, computed (for the driver) -/
+def agreeOnB (calls : List Call) (d f : Derived) : Bool :=
+  (flowing calls).all fun n => d.lookup n == f.lookup n
 
 end Goderive.Reload
